@@ -2,7 +2,7 @@ A = "libwild/src/elf_aarch64.rs"
 T = "libwild/src/thunks.rs"
 SPEC = dict(
     id="C11",
-    level_text="Bounded model checking: write_thunk is decoded with reference ADRP/ADD/BR semantics for all 2^64 thunk and target "
+    level_text="Bounded model checking: write_thunk is decoded with reference semantics (a direct B, or ADRP/ADD/BR through x16/x17) for all 2^64 thunk and target "
                "addresses within ADRP reach; assign_thunk_blocks is run on up to 5 contiguous objects with symbolic positions, "
                "sizes and branch range and the assignment invariants (one block per object, one owner per block, in range) are asserted.",
     level_note="Kernel scope: provably_in_range and the relocation-side decision to use a thunk need SymbolDb/Layout and are outside; "
